@@ -136,6 +136,7 @@ type vC10sScenario struct {
 	run  func(env *vC10sEnv, st Storage) error   // the operation under test
 	post func(env *vC10sEnv, st Storage, tag string) // extra checks after a successful run
 	live bool                                       // after an injected error the same live storage object is used again (not reopened)
+	big  bool                                       // an operation with more than a hundred storage calls: faults are placed near its end
 }
 
 func vC10sScenarios(b *vBuilder) []vC10sScenario {
@@ -215,6 +216,20 @@ func vC10sScenarios(b *vBuilder) []vC10sScenario {
 				return st.AddAll(ctx, []StorageChange{vC10sChange("c1", "b1", "r")}, []string{"c1"}, "r")
 			},
 		},
+		{ // 9: one add of 101 changes (a large remote add): all of them or none
+			big:  true,
+			prep: create,
+			run: func(env *vC10sEnv, st Storage) error {
+				var chs []StorageChange
+				prev := "r"
+				for i := 1; i <= 101; i++ {
+					id := "c" + string(rune('0'+i/100)) + string(rune('0'+(i/10)%10)) + string(rune('0'+i%10))
+					chs = append(chs, vC10sChange(id, "b"+id[1:], prev))
+					prev = id
+				}
+				return st.AddAll(ctx, chs, []string{prev}, "r")
+			},
+		},
 		{ // 8: an eager storage object: a failed add is retried on the same object
 			live: true,
 			prep: create,
@@ -249,6 +264,10 @@ func VerifC10Store() {
 	_ = nCalls
 	env.w.Calls = 0
 	k := rt.IntRange(0, 9)
+	if sc.big {
+		// the last calls of the operation: an insert of the final chunk, the head upsert, the commit
+		k = nCalls - 1 - rt.Choose(4)
+	}
 	if rt.Bool() {
 		// injected error at the k-th storage call
 		env.w.FailAt = k
